@@ -502,6 +502,12 @@ func (x *Exec) applyContract(fr *Frame, st *State, c *Contract, sig *types.Signa
 	x.bindLets(ev, c)
 	for _, rq := range c.Requires {
 		t := ev.evalBool(rq.Text)
+		if strings.HasPrefix(rq.Label, "assumed-") {
+			// an invariant of all reachable objects that callers cannot re-derive locally: assumed, and listed
+			x.note("precondition of " + c.Key + " assumed at its call sites (global data-structure invariant): " + rq.Text)
+			st.assume(t)
+			continue
+		}
 		props := rq.Props
 		if len(props) == 0 {
 			props = x.c.Props
@@ -551,7 +557,7 @@ func (x *Exec) applyContract(fr *Frame, st *State, c *Contract, sig *types.Signa
 	ev2 := &specEnv{x: x, st: st, old: pre, vars: env, c: c}
 	x.bindLets(ev2, c)
 	for _, en := range c.Ensures {
-		if en.MustFail || clauseUsesCallLog(c, en.Text) {
+		if en.MustFail || clauseUsesCallLog(c, en.Text) || strings.HasPrefix(en.Label, "lemma") {
 			// clauses about the callee's own call log describe its internals; they are proved on its body, not assumed here
 			continue
 		}
@@ -625,6 +631,10 @@ func (x *Exec) callSiteOrd(fn *ssa.Function, ins ssa.Instruction, short string) 
 
 // applyModifies havocs exactly the locations listed.
 func (x *Exec) applyModifies(ev *specEnv, st *State, items []string) {
+	// every location is evaluated in the state before the call, whatever the order of the items
+	snap := st.clone()
+	snap.noSide = true
+	ev = ev.withState(snap)
 	for _, it := range items {
 		switch {
 		case it == "everything":
